@@ -265,6 +265,155 @@ def _nonneg(fi, expr, depth=0):
     return False
 
 
+def indexspace_rules(run, db):
+    """Newton-Raphson with per-ray convergence masking works in two index spaces: GLOBAL ray numbers (0..nrays) and LOCAL
+    positions in the current sub-batch of unconverged rays.  Typestate over the loop body: a global-sized array is only
+    subscripted by a global index set, a local-sized array only by a local one, and the carried index set stays global."""
+    fn = db.func(SM + 'newton_raphson_solve_s')
+    loops = [n for n in walk_no_nested(fn.node) if isinstance(n, ast.For) and 'maxiter' in ast.unparse(n.iter)]
+    if len(loops) != 1:
+        raise AnalysisError('newton_raphson_solve_s: iteration loop not found')
+    lp = loops[0]
+    GA, LA, GI, LI = 'global array', 'local array', 'global index', 'local index'
+    env = {}
+    # before the loop: parameters and nrays-sized buffers are global arrays; mask = arange(nrays) is the global index set
+    for st in fn.node.body:
+        if st is lp:
+            break
+        if isinstance(st, ast.Assign) and isinstance(st.targets[0], ast.Name):
+            t, v = st.targets[0].id, ast.unparse(st.value)
+            if 'nrays' in v or 'empty_like(P1)' in v or t == 'sj':
+                env[t] = GI if 'arange' in v else GA
+    env.update({'P1': GA, 'S': GA})
+    if env.get('mask') != GI:
+        raise AnalysisError('newton_raphson_solve_s: `mask = arange(nrays)` not found before the loop')
+    problems = []
+
+    def typ(e):
+        if isinstance(e, ast.Name):
+            return env.get(e.id)
+        if isinstance(e, ast.Subscript):
+            base, idx = typ(e.value), e.slice
+            its = idx.elts if isinstance(idx, ast.Tuple) else [idx]
+            kinds = [typ(i) for i in its if not isinstance(i, (ast.Slice, ast.Constant)) and ast.unparse(i) not in ('np.newaxis', '...')]
+            kinds = [k for k in kinds if k in (GI, LI)]
+            if base == GA:
+                if LI in kinds:
+                    problems.append((e, 'the global-sized array `%s` is subscripted with the LOCAL index `%s`' % (ast.unparse(e.value), ast.unparse(idx))))
+                return LA if GI in kinds else GA
+            if base == LA:
+                if GI in kinds:
+                    problems.append((e, 'the sub-batch array `%s` is subscripted with the GLOBAL index `%s`' % (ast.unparse(e.value), ast.unparse(idx))))
+                return LA
+            if base == GI:
+                if GI in kinds:
+                    problems.append((e, 'the global index set `%s` is subscripted with another global index set' % ast.unparse(e.value)))
+                return GI if LI in kinds else base
+            if base == LI:
+                return LI
+            return None
+        if isinstance(e, ast.UnaryOp):
+            return typ(e.operand)
+        if isinstance(e, ast.Compare):
+            ts = [typ(e.left)] + [typ(c) for c in e.comparators]
+            return LI if LA in ts else (GI if GA in ts else None)
+        if isinstance(e, ast.BinOp):
+            ts = {typ(e.left), typ(e.right)}
+            if GA in ts and LA in ts:
+                problems.append((e, 'a global-sized and a sub-batch array are combined in `%s`' % ast.unparse(e)))
+            return LA if LA in ts else (GA if GA in ts else None)
+        if isinstance(e, ast.Call):
+            fname = ast.unparse(e.func)
+            ats = [typ(a) for a in e.args]
+            if fname.endswith('nonzero') or fname.endswith('flatnonzero') or fname.endswith('argwhere') or fname.endswith('where') and len(e.args) == 1:
+                return LI if LI in ats else (GI if GI in ats else None)          # positions within the array that was tested
+            if fname in ('abs', 'np.abs', '_multi_dot', 'FFp') or fname.startswith('np.'):
+                return LA if LA in ats else (GA if GA in ats else None)
+            return LA if LA in ats else None
+        if isinstance(e, ast.Tuple):
+            return None
+        return None
+
+    def run_block(stmts):
+        for st in stmts:
+            if isinstance(st, ast.Assign):
+                tv = typ(st.value)
+                for t in st.targets:
+                    if isinstance(t, ast.Name):
+                        if t.id == 'mask' and tv != GI:
+                            problems.append((st, '`%s` replaces the carried set of GLOBAL ray numbers by %s: from the second shrink on, positions within the sub-batch are used as ray numbers, '
+                                             'so the wrong rays are kept and their hit points are garbage' % (norm_stmt(st), 'a %s' % tv if tv else 'a value that is not a selection of it')))
+                        env[t.id] = tv
+                    elif isinstance(t, ast.Tuple):
+                        for el in t.elts:
+                            if isinstance(el, ast.Name):
+                                env[el.id] = LA if isinstance(st.value, ast.Call) and ast.unparse(st.value.func) == 'FFp' else tv
+                    elif isinstance(t, ast.Subscript):
+                        bt = typ(t)          # checks the index space of the store target
+                        vt = typ(st.value)
+                        if typ(t.value) == GA and vt == GA and not isinstance(st.value, ast.Attribute):
+                            problems.append((st, 'a global-sized value is stored through a global index in `%s`' % norm_stmt(st)))
+            elif isinstance(st, ast.If):
+                typ(st.test)
+                run_block(st.body)
+                run_block(st.orelse)
+            elif isinstance(st, ast.Expr):
+                typ(st.value)
+    run_block(lp.body)
+    run_block(lp.body)          # second pass: the state carried into the next iteration
+    seen = set()
+    for node, msg in problems:
+        if msg in seen:
+            continue
+        seen.add(msg)
+        run.finding('C19.normal', fn.qual, 'index space: %s' % msg[:60], 'Newton iteration index spaces: ' + msg, fn.loc(node))
+    if not problems:
+        known = sorted(k for k, v in env.items() if v)
+        run.ok('C19.normal', fn.qual, 'index spaces consistent: global arrays by ray number, sub-batch arrays by position (%d names typed)' % len(known))
+    if sum(1 for v in env.values() if v) < 10:
+        raise AnalysisError('newton_raphson_solve_s: fewer than 10 names typed (%s)' % env)
+
+
+def rotation_rules(run, db):
+    """Tilt lists become rotation matrices: make_rotation_matrix(zyx) is orthogonal with determinant +1 for all three angles,
+    which is what makes `R^T` the inverse frame transform."""
+    from .common import norm_interp, block_as_function
+    from ..domains.normdom import Arr
+    f = db.func('prysm.coordinates.make_rotation_matrix')
+    body = f.node.body
+    start = next((i for i, st in enumerate(body) if isinstance(st, ast.Assign) and ast.unparse(st.targets[0]) == 'cos1'), None)
+    if start is None or not isinstance(body[-1], ast.Return):
+        raise AnalysisError('make_rotation_matrix: matrix block not found')
+    ret = ast.unparse(body[-1].value)
+    fn, params = block_as_function(f, body[start:-1], [ret], 'matrix')
+    it, dom = norm_interp(db)
+    R = dom.R
+    res = [p for p in it.run(fn, kwargs=lambda: {p_: (Const(None) if p_ == ret else dom.sym(p_)) for p_ in params}) if p.outcome == 'return']
+    if len(res) != 1 or not isinstance(res[0].value.items[0], Arr) or res[0].value.items[0].shape != (3, 3):
+        raise AnalysisError('make_rotation_matrix: result is not a concrete 3x3 matrix')
+    M = res[0].value.items[0]
+    e = lambda i, j: dom.rat(M.get(i, j))
+    bad = []
+    for i in range(3):
+        for j in range(3):
+            acc = Rat(R.const(0))
+            for k in range(3):
+                acc = acc + e(k, i) * e(k, j)
+            if not (acc == Rat(R.const(1 if i == j else 0))):
+                bad.append('(R^T R)[%d,%d] = %s' % (i, j, acc.key()))
+    det = e(0, 0) * (e(1, 1) * e(2, 2) - e(1, 2) * e(2, 1)) - e(0, 1) * (e(1, 0) * e(2, 2) - e(1, 2) * e(2, 0)) + e(0, 2) * (e(1, 0) * e(2, 1) - e(1, 1) * e(2, 0))
+    run.check(not bad and det == Rat(R.const(1)), 'C19.rigid', f.qual, 'orthogonality', 'R^T R == I and det R == 1 for every (z, y, x) angle triple',
+              'make_rotation_matrix is not a rotation: %s; det = %s -- R^T is then not the inverse of R, so going into and out of a tilted surface frame is not a rigid motion and direction cosines lose unit length'
+              % ('; '.join(bad[:2]), det.key()), f.loc())
+    # unpacking: (z, y, x) angles, degrees unless told otherwise, short tuples zero-filled
+    src = ast.unparse(f.node).replace(' ', '')
+    ok = '(gamma,beta,alpha)=zyx' in src.replace('gamma,beta,alpha=zyx', '(gamma,beta,alpha)=zyx') and 'ifnotradians:zyx=truenp.radians(zyx)' in src.replace('\n', '').replace('    ', '')
+    run.check(ok, 'C19.rigid', f.qual, 'angle roles', 'zyx = (about z, about y, about x), converted from degrees once', 'make_rotation_matrix angle unpacking / unit conversion changed', f.loc())
+    fs = db.func(SF + '_none_or_rotmat')
+    src = ast.unparse(fs.node).replace(' ', '')
+    run.check('R=make_rotation_matrix(R)' in src and 'ifRisNone:' in src.replace('\n', ''), 'C19.rigid', fs.qual, 'tilt list', 'a tilt list/tuple is converted by make_rotation_matrix; None stays None', 'tilt handling changed', fs.loc())
+
+
 def state_rules(run, db):
     """Per-surface and per-iteration state: what may flow from one iteration to the next, and the convergence predicate."""
     from .common import loop_carried
@@ -311,7 +460,7 @@ def check(run, db, tier):
     run.rule('C19.rigid', 'local/global frame transforms are R(X-P) and R X + P with directions rotated only; raytrace uses (P, R) in and (P, R^T) out')
     run.rule('C19.normal', 'the normal handed to the interaction is the gradient of z - sag; Newton step and first guess; polar-to-Cartesian slope formula')
     run.rule('C19.axis0', 'no unguarded division by the radial coordinate on the normal path')
-    for fn in (vector_rules, frame_rules, normal_rules, state_rules):
+    for fn in (vector_rules, frame_rules, normal_rules, rotation_rules, state_rules, indexspace_rules):
         run.group(fn, run, db)
     # the slopes handed to the normal are the derivatives of the sag (shared with C09.rule)
     from .c02 import Proxy
